@@ -21,7 +21,7 @@ PLAN = dict(
           "patterns, three valid paths, 'build=foo>=1' and the empty field (137 560 strings); "
           "acceptance = exactly one ':' and both halves parse, parts == the halves parsed directly. "
           "Non-trivial = an accepted path that is not already in canonical spelling, or any Depend string; "
-          "distinct = distinct strings by 64-bit fingerprint. Later additions: values that compare equal must hash alike and order as equal; line ends, blanks, NUL and BOM around valid halves through every route (new, from_str, parse, Depend); each path is followed by its relatives with / without '../../', './', a trailing '/' and then asked again; pairs of paths that collide under common fast hash functions."),
+          "distinct = distinct strings by 64-bit fingerprint. Later additions: values that compare equal must hash alike and order as equal; line ends, blanks, NUL and BOM around valid halves through every route (new, from_str, parse, Depend); each path is followed by its relatives with / without '../../', './', a trailing '/' and then asked again; pairs of paths that collide under common fast hash functions. Round 8: noisy spellings of the same category/package (redundant slashes and '.' segments at different places, some of equal length) compared with the input's value and with each other, hashes included."),
     exhaustive={"quick": "all 78 124 strings of <= 6 segments over {'..','.','a','b-1',''} x leading '/' x separator '/' or '//'; all 26 x 19 x <=18 Depend strings; all 137 560 strings of 1-4 fields over the 19-field word alphabet; all 32 x 32 x 11 real-name paths",
                 "thorough": "all 78 124 strings of <= 6 segments over {'..','.','a','b-1',''} x leading '/' x separator '/' or '//'; all 26 x 19 x <=18 Depend strings; all 137 560 strings of 1-4 fields over the 19-field word alphabet; all 32 x 32 x 11 real-name paths"},
     assumptions=[
